@@ -383,6 +383,11 @@ func vtC12Top(r *rand.Rand, kind int, univ uint) int64 {
 }
 
 func vtC12Gen(r *rand.Rand, i int) (string, []int64) {
+	if os.Getenv("VERIF_TIER") == "thorough" {
+		if in := vtC12Exhaustive(i); in != nil {
+			return fmt.Sprintf("v%d/exhaustive", in[0]+1), in
+		}
+	}
 	ver := int64(r.Intn(2))
 	nd := 1 + r.Intn(7)
 	if r.Intn(4) == 0 {
